@@ -17,6 +17,7 @@
 use std::cell::RefCell;
 use std::collections::{BTreeMap, BTreeSet, HashSet};
 use std::io::Read;
+use std::os::fd::AsRawFd;
 use std::net::{IpAddr, Ipv4Addr, TcpStream};
 use std::sync::{mpsc, Arc, Barrier};
 use std::time::{Duration, Instant};
@@ -99,12 +100,15 @@ fn kernel_rejects_keepalive(secs: u64) -> bool {
 struct Plan { fail: Vec<bool>, quiet: Vec<bool>,
               /// the whole group of connections is queued in the backlog while the runtime's workers are kept busy,
               /// so that the listener meets all of them in one poll
-              held: bool }
+              held: bool,
+              /// reset[i]: the client of connection i resets it (SO_LINGER 0, close) right after connecting, so the
+              /// listener accepts a connection whose peer is gone already (empty = none)
+              reset: Vec<bool> }
 
 impl Plan {
     fn n(&self) -> usize { self.fail.len() }
     fn json(&self, mode: Mode) -> Value {
-        json!({"kind": "conns", "mode": mode.name(), "n": self.n(), "fail": self.fail, "quiet": self.quiet, "held_until_queued": self.held,
+        json!({"kind": "conns", "mode": mode.name(), "n": self.n(), "fail": self.fail, "quiet": self.quiet, "held_until_queued": self.held, "reset_by_client": self.reset,
                "keepalive_secs": match mode { Mode::Hook => Value::Null, Mode::HookKeepaliveOk => json!(KEEPALIVE_ACCEPTED), Mode::KeepaliveRejected => json!(KEEPALIVE_REJECTED) }})
     }
 }
@@ -163,11 +167,25 @@ fn attempt(plan: &Plan, mode: Mode, wait: Duration) -> Result<Vec<Seen>, String>
             for _ in 0..8 { fx.runtime.spawn(async { std::thread::sleep(Duration::from_millis(250)) }); }
             std::thread::sleep(Duration::from_millis(30));
         }
-        for _ in i..j {
-            socks.push(TcpStream::connect(("127.0.0.1", port)).map_err(|e| e.to_string()));
+        let mut gone: Vec<bool> = Vec::new();
+        for c in i..j {
+            let sock = TcpStream::connect(("127.0.0.1", port)).map_err(|e| e.to_string());
+            if plan.reset.get(c).copied().unwrap_or(false) {
+                // RST instead of FIN: the connection stays in the accept queue, its peer is gone
+                if let Ok(s) = sock.as_ref() {
+                    let l = libc::linger { l_onoff: 1, l_linger: 0 };
+                    unsafe { libc::setsockopt(s.as_raw_fd(), libc::SOL_SOCKET, libc::SO_LINGER, &l as *const _ as *const libc::c_void,
+                                              std::mem::size_of::<libc::linger>() as libc::socklen_t); }
+                }
+                drop(sock);
+                gone.push(true);
+                socks.push(Err("reset by the client".into()));
+            }
+            else { gone.push(false); socks.push(sock); }
         }
         if plan.held { std::thread::sleep(Duration::from_millis(300)); }
-        for s in socks.iter_mut() {
+        for (k, s) in socks.iter_mut().enumerate() {
+            if gone[k] { seen.push(Seen::Closed); continue }
             let w = if stuck { wait.min(Duration::from_millis(300)) } else { wait };
             let r = match s {
                 Ok(sock) => classify(&rtr_query_on(sock, None, w)),
@@ -225,6 +243,10 @@ fn judge(plan: &Plan, mode: Mode, seen: &[Seen]) -> Verdict {
 
 fn c19(rep: &mut Report, args: &Args, behaviours: &[Value], shard: usize, nshards: usize) {
     let mut plans: Vec<(Plan, Mode)> = Vec::new();
+    // log at the default level of a real server (warn): the arguments of warn!() and error!() are evaluated as they
+    // are in production (with logging off they are not)
+    crate::env::init_process();
+    if std::env::var_os("VERIF_LOG").is_none() { log::set_max_level(log::LevelFilter::Warn); }
     let rejects = kernel_rejects_keepalive(KEEPALIVE_REJECTED);
     let accepts = !kernel_rejects_keepalive(KEEPALIVE_ACCEPTED);
     rep.note("C19", "kernel_rejects_keepalive_40000", json!(rejects));
@@ -235,14 +257,14 @@ fn c19(rep: &mut Report, args: &Args, behaviours: &[Value], shard: usize, nshard
         let plan = Plan {
             fail: b["fail"].as_array().unwrap().iter().map(|x| x.as_bool().unwrap()).collect(),
             quiet: b["quiet"].as_array().unwrap().iter().map(|x| x.as_bool().unwrap()).collect(),
-            held: false,
+            held: false, reset: Vec::new(),
         };
         plans.push((plan.clone(), Mode::Hook));
         // the keepalive-accepted configuration on every fifth sequence (all of them in the thorough tier)
         if accepts && (args.thorough() || k % 5 == 0) { plans.push((plan.clone(), Mode::HookKeepaliveOk)); }
         // keepalive rejected: every setup fails, only the arrival pattern matters
         if rejects && seen_timing.insert(plan.quiet.clone()) {
-            plans.push((Plan { fail: vec![true; plan.n()], quiet: plan.quiet.clone(), held: false }, Mode::KeepaliveRejected));
+            plans.push((Plan { fail: vec![true; plan.n()], quiet: plan.quiet.clone(), held: false, reset: Vec::new() }, Mode::KeepaliveRejected));
         }
         k += 1;
     }
@@ -251,9 +273,9 @@ fn c19(rep: &mut Report, args: &Args, behaviours: &[Value], shard: usize, nshard
     let extra = if args.thorough() { 120 } else { 12 };
     for _ in 0..extra {
         let n = 5 + rng.below(4) as usize;
-        let plan = Plan { fail: (0..n).map(|_| rng.below(3) == 0).collect(), quiet: (0..n).map(|_| rng.below(2) == 0).collect(), held: false };
+        let plan = Plan { fail: (0..n).map(|_| rng.below(3) == 0).collect(), quiet: (0..n).map(|_| rng.below(2) == 0).collect(), held: false, reset: Vec::new() };
         let mode = match rng.below(4) { 0 if rejects => Mode::KeepaliveRejected, 1 if accepts => Mode::HookKeepaliveOk, _ => Mode::Hook };
-        let plan = if mode == Mode::KeepaliveRejected { Plan { fail: vec![true; n], quiet: plan.quiet, held: false } } else { plan };
+        let plan = if mode == Mode::KeepaliveRejected { Plan { fail: vec![true; n], quiet: plan.quiet, held: false, reset: Vec::new() } } else { plan };
         plans.push((plan, mode));
     }
     // bursts: many connections are already queued when the listener is polled (routers reconnecting at once
@@ -261,8 +283,21 @@ fn c19(rep: &mut Report, args: &Args, behaviours: &[Value], shard: usize, nshard
     for n in if args.thorough() { vec![9usize, 12, 17, 33] } else { vec![9usize, 12] } {
         let mut quiet = vec![false; n]; quiet[0] = true;
         let mut fail = vec![true; n]; fail[n - 1] = false;
-        plans.push((Plan { fail, quiet: quiet.clone(), held: true }, Mode::Hook));
-        if rejects { plans.push((Plan { fail: vec![true; n], quiet, held: true }, Mode::KeepaliveRejected)); }
+        plans.push((Plan { fail, quiet: quiet.clone(), held: true, reset: Vec::new() }, Mode::Hook));
+        if rejects { plans.push((Plan { fail: vec![true; n], quiet, held: true, reset: Vec::new() }, Mode::KeepaliveRejected)); }
+    }
+
+    // clients that are gone when the listener gets to them: the set-up of a connection whose peer has reset it fails too
+    // (and whatever the failure path does with the socket must cope with a peer that is not there)
+    for n in if args.thorough() { vec![2usize, 3, 5, 9] } else { vec![3usize, 5] } {
+        let mut quiet = vec![false; n]; quiet[0] = true;
+        let mut reset = vec![true; n]; reset[n - 1] = false;
+        let mut fail = vec![true; n]; fail[n - 1] = false;
+        for held in [true, false] {
+            plans.push((Plan { fail: fail.clone(), quiet: quiet.clone(), held, reset: reset.clone() }, Mode::Hook));
+            if accepts { plans.push((Plan { fail: fail.clone(), quiet: quiet.clone(), held, reset: reset.clone() }, Mode::HookKeepaliveOk)); }
+            if rejects { plans.push((Plan { fail: vec![true; n], quiet: quiet.clone(), held, reset: reset.clone() }, Mode::KeepaliveRejected)); }
+        }
     }
 
     let base = Duration::from_millis(args.opt_usize("wait_ms", 2500) as u64);
